@@ -137,6 +137,8 @@ Definition depths_ready (g : utree) (o : sexp) : option string :=
     then Some "Node.Depth() of a node is not its distance to the closest tip (below it when rooted): stale depth"
     else if UTree.rooted g && negb (forallb (fun p => Z.eqb (snd (fst p)) (Z.of_nat (snd (snd p)))) (combine ds exp))
     then Some "the root depth of a node is not its distance to the root"
+    else if negb (UTree.rooted g) && negb (forallb (fun p => Z.eqb (snd p) (-1)%Z) ds)
+    then Some "a node of an unrooted tree carries a root depth (ComputeDepths leaves NIL_DEPTH = -1 on unrooted trees): stale root depth"
     else None
   end.
 
